@@ -22,6 +22,14 @@ def check_case(ctx, cs):
         small = dict(small, prm=o["prm"])
         ctx.count(("hull", shape_key(sh), tuple(map(tuple, o["prm"]))), sample={"op": "hull", **small, "cert": o["cert"][:3]})
         lo, hi = frv(o["bbox"][0]), frv(o["bbox"][1])
+        if sh["rat"]:
+            # a translated COPY is made and its views are read first: the original keeps reporting its own box
+            def fork():
+                cp = operations.translate(obj, [100.0] * obj.dimension)
+                return [list(p) for p in cp.ctrlpts], [list(x) for x in cp.bbox]
+            ok, fk = _try(ctx, "operations.translate", tg + ["fork"], small, fork)
+            if ok and not (close_seq(fk[1][0], [x + 100 for x in lo]) and close_seq(fk[1][1], [x + 100 for x in hi])):
+                ctx.violate("abstract.bbox", tg + ["translated_copy"], small, {"expected_min": fl([x + 100 for x in lo]), "got": fk[1]})
         ok, bb = _try(ctx, "abstract.bbox", tg, small, lambda: obj.bbox)
         if ok and not (close_seq(list(bb[0]), lo) and close_seq(list(bb[1]), hi)):
             ctx.violate("abstract.bbox", tg, small, {"expected": [fl(lo), fl(hi)], "got": [list(bb[0]), list(bb[1])]})
@@ -61,6 +69,26 @@ def check_case(ctx, cs):
             pts = obj.evalpts
             if not (close_seq(pts[0], obj.ctrlpts[0]) and close_seq(pts[-1], obj.ctrlpts[-1])):
                 ctx.violate("evalpts", tg + ["clamped_ends"], small, {"first": pts[0], "last": pts[-1]})
+        # sampled points of objects created with a coarse ``precision`` option, at sample sizes whose step is not a terminating decimal
+        for prec in (6, 3):
+            if not all((fr(k) * 10 ** prec).denominator == 1 for k in sh["kv"][0]):
+                continue
+            for n in (4, 7, 10):
+                t2 = tg + ["precision=%d" % prec, "sample_size=%d" % n]
+                def sampled():
+                    ob = build(sh, precision=prec)
+                    ob.sample_size = n
+                    return [list(x) for x in ob.evalpts], [list(x) for x in ob.bbox], [list(x) for x in ob.ctrlpts]
+                ok, r = _try(ctx, "evalpts", t2, small, sampled)
+                if not ok:
+                    continue
+                pts, bb, cps = r
+                if len(pts) != n:
+                    ctx.violate("evalpts", t2 + ["count"], small, {"expected": n, "got": len(pts)})
+                elif any(x < a - 1e-9 or x > b + 1e-9 for p in pts for x, a, b in zip(p, bb[0], bb[1])):
+                    ctx.violate("evalpts", t2 + ["outside_bbox"], small, {"bbox": bb, "last": pts[-1]})
+                elif o["clamped"] and not (close_seq(pts[0], cps[0]) and close_seq(pts[-1], cps[-1])):
+                    ctx.violate("evalpts", t2 + ["clamped_ends"], small, {"first": pts[0], "last": pts[-1], "last_ctrlpt": cps[-1]})
     else:
         raise core.MachineryError("unknown op")
 
